@@ -282,7 +282,7 @@ fn plan(zc: &ZoneCase, rng: &mut Rng, max_trans: usize, n_random: usize) -> (Vec
     let m = &zc.model;
     let mut us: Vec<i64> = Vec::new();
     let mut ls: Vec<i64> = Vec::new();
-    let mut around = |t: i64, p: i32, a: i32, us: &mut Vec<i64>, ls: &mut Vec<i64>| {
+    let around = |t: i64, p: i32, a: i32, us: &mut Vec<i64>, ls: &mut Vec<i64>| {
         let d = (a as i64 - p as i64).abs();
         for k in [-1i64, 0, 1] {
             us.push(t.saturating_add(k));
